@@ -195,7 +195,7 @@ func checkC02(c *Ctx) {
 		val := args[len(args)-1]
 		// does the value come from gauge.curr?
 		fromCurr := false
-		exact := c.traceReturns(val, 3, func(leaf ssa.Value) bool {
+		isExact := func(leaf ssa.Value) bool {
 			if fb, ok := isCallTo(leaf, "math", "Float64frombits"); ok {
 				if c.traceReturns(fb.Call.Args[0], 2, isCurrLoad) {
 					fromCurr = true
@@ -203,7 +203,17 @@ func checkC02(c *Ctx) {
 				}
 			}
 			return false
-		})
+		}
+		exact := c.traceReturns(val, 3, isExact)
+		if _, isPhi := stripConv(val).(*ssa.Phi); !exact && isPhi {
+			// the value of a joined (value, ok) helper: judge what it can be when the delivery executes
+			exact = true
+			for _, rv := range valuesReaching(val, in) {
+				if !c.traceReturns(rv, 3, isExact) {
+					exact = false
+				}
+			}
+		}
 		if !fromCurr {
 			// Not obviously a gauge delivery; it is one if the enclosing function is a gauge method.
 			if fn.Signature.Recv() == nil || deref(fn.Signature.Recv().Type()) != types.Type(c.named("", "gauge")) {
